@@ -31,13 +31,18 @@ def main():
     if noconfirm:
         a.remove("--noconfirm")
     name, wt, props = a[0], a[1], a[2:]
-    out = os.path.join(wt, "OUT")
-    meta = json.load(open(os.path.join(out, "meta.json")))
     dst = os.path.join(V, "seeded", name)
-    os.makedirs(dst, exist_ok=True)
-    for f in os.listdir(out):
-        if os.path.isfile(os.path.join(out, f)):
-            shutil.copy(os.path.join(out, f), dst)
+    if wt == "-":  # re-evaluate a stored seed (its worktree is gone): checks only
+        noconfirm = True
+        meta = json.load(open(os.path.join(dst, "meta.json")))
+        out = dst
+    else:
+        out = os.path.join(wt, "OUT")
+        meta = json.load(open(os.path.join(out, "meta.json")))
+        os.makedirs(dst, exist_ok=True)
+        for f in os.listdir(out):
+            if os.path.isfile(os.path.join(out, f)):
+                shutil.copy(os.path.join(out, f), dst)
     scratch = "/tmp/seedeval-%s-%d" % (name, os.getpid())
     ran = {}
     try:
@@ -54,7 +59,7 @@ def main():
         # demo files: test files in OUT are placed where the worktree has them
         # demo files = untracked .go files the agent left in its worktree (outside OUT/)
         demos = []
-        rc, o = sh(["git", "status", "--porcelain", "--untracked-files=all"], cwd=wt)
+        rc, o = (0, "") if wt == "-" else sh(["git", "status", "--porcelain", "--untracked-files=all"], cwd=wt)
         for ln in o.splitlines():
             if ln.startswith("?? ") and ln.endswith(".go") and not ln[3:].startswith("OUT/"):
                 demos.append((os.path.join(wt, ln[3:]), ln[3:]))
@@ -106,7 +111,8 @@ def main():
 
 
 def finish(dst, meta, ran, results):
-    meta["confirmed_by_framework_author"] = ran
+    if "builds_with_change" in ran or "confirmed_by_framework_author" not in meta:
+        meta["confirmed_by_framework_author"] = ran
     prev = meta.get("checks", {})
     prev.update(results)
     meta["checks"] = prev
